@@ -1126,6 +1126,21 @@ func (p Patch) test(doc *container, op Operation, options *ApplyOptions) error {
 	return fmt.Errorf("testing value %s failed: %w", path, ErrTestFailed)
 }
 
+// containerNode wraps the current document in a node; a null document is a nil node.
+func containerNode(c container) *lazyNode {
+	switch sv := c.(type) {
+	case *partialDoc:
+		if sv != nil {
+			return &lazyNode{doc: sv, which: eDoc}
+		}
+	case *partialArray:
+		if sv != nil {
+			return &lazyNode{ary: sv, which: eAry}
+		}
+	}
+	return nil
+}
+
 func (p Patch) copy(doc *container, op Operation, accumulatedCopySize *int64, options *ApplyOptions) error {
 	from, err := op.From()
 	if err != nil {
@@ -1141,6 +1156,11 @@ func (p Patch) copy(doc *container, op Operation, accumulatedCopySize *int64, op
 	val, err := con.get(key, options)
 	if err != nil {
 		return fmt.Errorf("error in copy for from: '%s': %w", from, err)
+	}
+
+	if from == "" {
+		// The whole document as it is now, not as it was given to Apply.
+		val = containerNode(*doc)
 	}
 
 	path, err := op.Path()
